@@ -90,7 +90,8 @@ static std::string half_unit_check(const std::string& txt, double d, int sig, in
     unit = powl(10.0L, e10 - sig + 1);
   }
   long double err = fabsl(v - (long double) d);
-  if (err <= 0.5L * unit * (1 + 1e-9L)) return "1";
+  // exact ties are legitimate: allow for the rounding of v itself to the 64-bit mantissa of long double
+  if (err <= 0.5L * unit * (1 + 1e-9L) + fabsl(v) * 2e-19L) return "1";
   char b[200];
   std::snprintf(b, 200, "err=%Lg unit=%Lg txt=%s", err, unit, txt.c_str());
   return b;
@@ -132,6 +133,17 @@ static std::string handle(const std::string& cmd, const std::string& args) {
     long c = strtol_l(s.c_str(), &end, 10, c_locale());
     return "g=" + std::to_string(v) + "," + std::to_string(endp - s.c_str()) +
            " c=" + std::to_string(c) + "," + std::to_string(end - s.c_str());
+  }
+  if (cmd == "wsti") {           // string_to_int on numbers of any size (wraps in unsigned arithmetic)
+    std::string padded = hv::hex_decode(w.at(0)) + std::string(8, '\0');
+    try { return std::to_string(gemmi::string_to_int(padded.c_str(), w.at(1) == "1", (size_t) to_ll(w.at(2)))); }
+    catch (std::invalid_argument&) { return "EXC"; }
+  }
+  if (cmd == "wsatoi" || cmd == "wnsatoi") {
+    std::string s = hv::hex_decode(w.at(0));
+    const char* endp = nullptr;
+    int v = cmd == "wsatoi" ? gemmi::simple_atoi(s.c_str(), &endp) : gemmi::no_sign_atoi(s.c_str(), &endp);
+    return std::to_string(v) + "," + std::to_string(endp - s.c_str());
   }
   if (cmd == "asint") {          // cif::as_int(str) (checked string_to_int; '?' and '.' throw too)
     std::string s = hv::hex_decode(w.at(0));
